@@ -4,7 +4,6 @@
 //! code: no PRNG, no clock (the per-call stopwatch of C01 never feeds back).
 
 use std::collections::BTreeMap;
-use std::time::Instant;
 
 use crate::cfg::{CfgSpec, LayoutKind, ENGLISH, FIXED_SUG, KAR_ORDER, NUMPAD, OLD_REPH};
 use crate::disk::{DirState, FileId, SimDisk, WriteOutcome};
@@ -248,9 +247,11 @@ impl<'a> World<'a> {
         if self.opts.time_bound_ns == 0 {
             return f();
         }
-        let t0 = Instant::now();
+        // CPU time of this thread, not wall-clock time: a blow-up burns CPU, and a worker
+        // that merely waited for a core (other batches on the machine) must not look slow
+        let t0 = thread_cpu_ns();
         let r = f();
-        let dt = t0.elapsed().as_nanos() as u64;
+        let dt = thread_cpu_ns().saturating_sub(t0);
         if dt > self.stats.max_call_ns {
             self.stats.max_call_ns = dt;
         }
@@ -891,10 +892,10 @@ impl<'a> World<'a> {
             let slot = self.slots[h as usize].as_mut().unwrap();
             let host = &mut slot.host;
             // (timing inline: cannot borrow self mutably twice)
-            let t0 = if self.opts.time_bound_ns > 0 { Some(Instant::now()) } else { None };
+            let t0 = if self.opts.time_bound_ns > 0 { Some(thread_cpu_ns()) } else { None };
             let r = host.key(key, m, byte);
             if let Some(t0) = t0 {
-                let dt = t0.elapsed().as_nanos() as u64;
+                let dt = thread_cpu_ns().saturating_sub(t0);
                 if dt > self.stats.max_call_ns {
                     self.stats.max_call_ns = dt;
                 }
@@ -1051,10 +1052,10 @@ impl<'a> World<'a> {
         };
         let what = format!("{}backspace on host {}", if ctrl { "ctrl-" } else { "" }, h);
         let had_unflushed = self.disk.has_unflushed();
-        let t0 = if self.opts.time_bound_ns > 0 { Some(Instant::now()) } else { None };
+        let t0 = if self.opts.time_bound_ns > 0 { Some(thread_cpu_ns()) } else { None };
         let r = self.slots[h as usize].as_mut().unwrap().host.backspace(ctrl);
         if let Some(t0) = t0 {
-            let dt = t0.elapsed().as_nanos() as u64;
+            let dt = thread_cpu_ns().saturating_sub(t0);
             self.stats.max_call_ns = self.stats.max_call_ns.max(dt);
             if dt > self.opts.time_bound_ns && self.slow_call.is_none() {
                 self.slow_call = Some((self.cur, dt));
@@ -1221,10 +1222,10 @@ impl<'a> World<'a> {
             slot.lm.taint(&w);
         }
 
-        let t0 = if self.opts.time_bound_ns > 0 { Some(Instant::now()) } else { None };
+        let t0 = if self.opts.time_bound_ns > 0 { Some(thread_cpu_ns()) } else { None };
         let r = self.slots[h as usize].as_mut().unwrap().host.commit(i);
         if let Some(t0) = t0 {
-            let dt = t0.elapsed().as_nanos() as u64;
+            let dt = thread_cpu_ns().saturating_sub(t0);
             self.stats.max_call_ns = self.stats.max_call_ns.max(dt);
             if dt > self.opts.time_bound_ns && self.slow_call.is_none() {
                 self.slow_call = Some((self.cur, dt));
@@ -2148,4 +2149,12 @@ pub fn execute(env: &Env, plan: &Plan, stats: &mut Stats, opts: ExecOpts) -> (Ou
 #[allow(dead_code)]
 pub fn unused(_: &BTreeMap<String, u64>, _: u16) {
     let _ = ENGLISH;
+}
+
+/// CPU time consumed by the calling thread, in nanoseconds.
+pub fn thread_cpu_ns() -> u64 {
+    let mut ts = libc::timespec { tv_sec: 0, tv_nsec: 0 };
+    // SAFETY: plain syscall writing into a local
+    unsafe { libc::clock_gettime(libc::CLOCK_THREAD_CPUTIME_ID, &mut ts) };
+    ts.tv_sec as u64 * 1_000_000_000 + ts.tv_nsec as u64
 }
